@@ -17,9 +17,9 @@ pub fn any_text<const PRE: usize, const N: usize, const B: usize, const A: usize
     pre: [u8; PRE],
     w: [u8; N],
     alpha: [u8; A],
-) -> ([u8; B], [usize; 12]) {
+) -> ([u8; B], [usize; 24]) {
     let mut buf = [0u8; B];
-    let mut bounds = [0usize; 12];
+    let mut bounds = [0usize; 24];
     let mut len = 0usize;
     let mut i = 0;
     while i < PRE {
@@ -188,7 +188,7 @@ macro_rules! c10_ws {
                 (Ok(_), Err(_)) => assert!(false, "accepted layout the reference rejects"),
                 (Err(_), Ok(_)) => assert!(false, "rejected layout the reference accepts"),
             }
-            kani::cover!(matches!(exp, Ok(j) if j == $b && i == 0 && $b > 3), "whole text is layout");
+            kani::cover!(matches!(exp, Ok(j) if j == $b && i == 0), "whole text is layout");
             kani::cover!(matches!(exp, Err((k, _)) if k == yp::REACHED_EOL), "newline where none is allowed");
             if $witness {
                 assert!(false, "reachability witness");
@@ -217,7 +217,7 @@ macro_rules! c12_scan {
             let r = $f(s, i);
             check_total(&buf, i, &r);
             kani::cover!(r.is_ok(), "scanner accepts");
-            kani::cover!(r.is_err(), "scanner rejects");
+            kani::cover!(r.is_err(), "opt: scanner rejects");
         }
     };
 }
